@@ -185,6 +185,11 @@ def stmt_exprs(s):
     k = s["s"]
     if k in ("decl", "set", "expr", "ret"):
         yield s["x"]
+    elif k == "pset":
+        yield s["x"]
+        for a in s["path"]:
+            if a["k"] == "i":
+                yield a["x"]
     elif k in ("if", "while"):
         yield s["c"]
     elif k == "for":
